@@ -28,7 +28,7 @@ func checkC03(w *World, r *Report) {
 	c03Carry(w, r, a, "C03.b", "b-no-carry-across-entries")
 	c03Revision(w, r, a, "C03.c", "c-result-revision")
 	c01ReadOwnBatch(w, r, a, "C03.d", "d-indexed-switch")
-	c03Snapshots(w, r, a)
+	c03Snapshots(w, r, a, "C03.e", "e-snapshots-carry-bookkeeping")
 }
 
 func c03Determinism(w *World, r *Report, a *FsmA) {
@@ -277,8 +277,8 @@ func c03Revision(w *World, r *Report, a *FsmA, id, slug string) {
 	ob.NeedFloor(7)
 }
 
-func c03Snapshots(w *World, r *Report, a *FsmA) {
-	ob := r.Ob("C03.e", "e-snapshots-carry-bookkeeping", "SST format: the saving iterator is opened with nil options on the snapshot passed in, and every pair it yields reaches the SST writer's Set before the iterator is advanced; checkpoint format: Flush precedes Checkpoint on the same DB, and every listed file gets its tar header (regular files their content) before the next one", "a snapshot that filters or skips keys loses the applied/leader index or data: a replica recovered from it differs from one that applied the log")
+func c03Snapshots(w *World, r *Report, a *FsmA, id, slug string) {
+	ob := r.Ob(id, slug, "SST format: the saving iterator is opened with nil options on the snapshot passed in, and every pair it yields reaches the SST writer's Set before the iterator is advanced; checkpoint format: Flush precedes Checkpoint on the same DB, and every listed file gets its tar header (regular files their content) before the next one", "a snapshot that filters or skips keys loses the applied/leader index or data: a replica recovered from it differs from one that applied the log")
 	// recoverer implementers
 	sp := w.SSAPkg(fsmRel)
 	var saves, prepares []*ssa.Function
